@@ -180,7 +180,10 @@ class RsEmitter:
         mutable = t[3]
         ret_rs = self.rs_plain_ty(t[2])
         params = ["data: *%s core::ffi::c_void" % ("mut" if mutable else "const")] + ["a%d: %s" % (i, self.rs_plain_ty(a)) for i, a in enumerate(t[1])]
-        body = ["let cnt = data as *mut i32; let j = *cnt; *cnt = j + 1;",
+        null_data = bool(v.get("null_data"))
+        if null_data:
+            self.decls.setdefault(self.cur_mod, []).append("static mut VF_CB_CNT_%d: i32 = 0;" % n)
+        body = ["assert!(data.is_null()); let j = VF_CB_CNT_%d; VF_CB_CNT_%d = j + 1;" % (n, n) if null_data else "let cnt = data as *mut i32; let j = *cnt; *cnt = j + 1;",
                 "let mut line = format!(\"CB %d#{}\", j);" % n]
         for i, a in enumerate(t[1]):
             body.append("line.push(' '); line.push_str(&%s);" % self.fmt("a%d" % i, a, None, None))
@@ -195,7 +198,12 @@ class RsEmitter:
             "unsafe extern \"C\" fn vf_cb_run_%d(%s)%s {\n        %s\n    }" % (
                 n, ", ".join(params), "" if t[2] == ("unit",) else " -> " + ret_rs, "\n        ".join(body)))
         self.decls[self.cur_mod].append(
-            "unsafe extern \"C\" fn vf_cb_drop_%d(data: *mut core::ffi::c_void) { crate::vf::log(\"CBDROP %d\".to_string()); drop(Box::from_raw(data as *mut i32)); }" % (n, n))
+            "unsafe extern \"C\" fn vf_cb_drop_%d(data: *mut core::ffi::c_void) { crate::vf::log(\"CBDROP %d\".to_string()); if !data.is_null() { drop(Box::from_raw(data as *mut i32)); } }" % (n, n))
+        if null_data:
+            sig = "unsafe extern \"C\" fn(%s)%s" % (", ".join(p.split(": ", 1)[1] for p in params), "" if t[2] == ("unit",) else " -> " + ret_rs)
+            run = ("core::mem::transmute::<%s, unsafe extern \"C\" fn(*mut core::ffi::c_void, ...)%s>(vf_cb_run_%d)" % (sig, "" if t[2] == ("unit",) else " -> " + ret_rs, n))
+            return "diplomat_runtime::DiplomatCallback::<%s> { data: core::ptr::null_mut(), run_callback: %s, destructor: %s }" % (
+                ret_rs, run, ("Some(vf_cb_drop_%d)" % n) if v["destructor"] else "None")
         d = self.fresh("cbd")
         pre.append("let %s = Box::into_raw(Box::new(0i32));" % d)
         sig = "unsafe extern \"C\" fn(%s)%s" % (", ".join(p.split(": ", 1)[1] for p in params), "" if t[2] == ("unit",) else " -> " + ret_rs)
